@@ -31,7 +31,10 @@ var purityTexts = mustParse(`<<
   << <<"Id", "y", FALSE>>, <<".", ".", FALSE>>, <<"Id", "k", FALSE>>, <<"?", "?", FALSE>>, <<"Str", <<97>>, FALSE>>, <<":", ":", FALSE>>, <<"Id", "fail", FALSE>>, <<"(", "(", FALSE>>, <<"Num", <<FALSE, <<1>>, 0>>, FALSE>>, <<")", ")", FALSE>> >>,
   << <<"Id", "max", FALSE>>, <<"(", "(", FALSE>>, <<"Id", "x", FALSE>>, <<",", ",", FALSE>>, <<"Num", <<FALSE, <<1>>, 0>>, FALSE>>, <<")", ")", FALSE>> >>,
   << <<"Id", "x", FALSE>>, <<"+", "+", FALSE>> >>,
-  << <<"[", "[", FALSE>>, <<"Id", "x", FALSE>>, <<",", ",", FALSE>>, <<"Id", "undefined", FALSE>>, <<"]", "]", FALSE>> >> >>`).([]any)
+  << <<"[", "[", FALSE>>, <<"Id", "x", FALSE>>, <<",", ",", FALSE>>, <<"Id", "undefined", FALSE>>, <<"]", "]", FALSE>> >>,
+  << <<"(", "(", FALSE>>, <<"Num", <<FALSE, <<1>>, 33>>, FALSE>>, <<"+", "+", FALSE>>, <<"Num", <<FALSE, <<5>>, -1>>, FALSE>>, <<")", ")", FALSE>>, <<"-", "-", FALSE>>, <<"Num", <<FALSE, <<1>>, 33>>, FALSE>> >>,
+  << <<"Id", "round", FALSE>>, <<"(", "(", FALSE>>, <<"Id", "x", FALSE>>, <<")", ")", FALSE>> >>,
+  << <<"(", "(", FALSE>>, <<"Id", "y", FALSE>>, <<")", ")", FALSE>>, <<".", ".", FALSE>>, <<"Id", "k", FALSE>> >> >>`).([]any)
 
 var purityDatas = mustParse(`<< [x |-> <<"int", 2>>, y |-> <<"map", [k |-> <<"bool", TRUE>>]>>, fail |-> <<"func", "fail">>],
   [x |-> <<"dec", FALSE, <<2,5>>, -1>>, y |-> <<"map", [k |-> <<"int", 0>>]>>, fail |-> <<"func", "fail">>],
@@ -281,7 +284,9 @@ func (purityFam) Check(vars map[string]any) Result {
 var purityUnrelated = []string{"1 + 2 * 3", "'a' + 'b'", "[1, 2, 3]", "len('abc') + find('abc', 'c')", "$z = 5, $z * $z", "max(1, 2, 3) - min(4, 5)",
 	"upper(lower('MiXed'))", "x.y.z ?? 'none'", "!!'' || 'dflt'", "date(2024, 2, 30)", "round(2.5) + roundBank(2.5)", "lpad('7', '0', 3)",
 	"1 / 3 * 3", "regexp('abc', '(a|b)+c')", "join(['a', 'b'], '-')", "typeof x", "(1, 2, 3)", "a ? b : c", "toFloat(toString(1.50))",
-	"1 +", "f(", "'open", "mid('hello', 1, 3)", "replace('aaa', 'a', 'b')", "abs(-3) === 3", "~5 & 3 | 8 ^ 1", "year(date(1999, 12, 31))", "nope(1)"}
+	"1 +", "f(", "'open", "mid('hello', 1, 3)", "replace('aaa', 'a', 'b')", "abs(-3) === 3", "~5 & 3 | 8 ^ 1", "year(date(1999, 12, 31))", "nope(1)",
+	"9999999999999999999999999999999999 * 1.5", "1000000000000000000000000000000000 + 2.5", "(x).y + len((a)!.b)", "roundBank(0.5) + roundBank(1.5)", "1 / 8 * 3",
+	"floor(-2.5) + ceil(-2.5)", "sqrt(2) * sqrt(2)", "toInt('12.9') + toFloat('1e2')"}
 
 func outcomeForTrace(o any) any {
 	ot, _ := o.([]any)
@@ -337,8 +342,14 @@ func recordPurity(args []string) int {
 	}
 	for k := 0; k < *n; k++ {
 		ti := rng.Intn(len(targets))
+		op := rng.Intn(4)
+		if k < 3*len(targets) {
+			// prologue: every target is parsed, analysed and evaluated once, in order, round() last, so that the
+			// first observation of each key is made before anything else could have left state behind
+			ti, op = k%len(targets), []int{0, 1, 2}[k/len(targets)]
+		}
 		t := &targets[ti]
-		switch rng.Intn(4) {
+		switch op {
 		case 0: // parse again
 			obs, src := ParseObserve(t.text)
 			_, perr := formula.ParseSourceCode([]byte(t.text))
